@@ -384,16 +384,29 @@ pub fn run_case_sync(c: &Case, tag: &str) -> Result<&'static str, Violation> {
 pub fn run(tier: Tier) -> i32 {
     crate::engine::watch::start("C10", tier.name(), Duration::from_secs(90), crate::engine::watch::OnExpiry::Machinery);
     let mut rep = Report::new("C10", tier, "exploration");
-    let cs = cases(tier);
-    let r = sweep_dyn(cs.len() as u64, 1, Duration::from_secs(1500), rt::workers(), |i| {
-        let c = &cs[i as usize];
-        let _g = crate::engine::watch::enter("C10:wedged".into(), json!({"case": c}).to_string());
-        run_case_sync(c, &format!("k{i}")).map(|k| Cow::Owned(format!("{}:{}:{k}", if c.h2 { "h2" } else { "h1" }, c.outcome)))
-    });
-    rep.add("evaluations", r.evaluations);
-    rep.add("distinct_nontrivial", r.classes.len() as u64);
-    rep.violations(r.violations);
-    rep.cov("exhaustive", r.completed);
+    let all = cases(tier);
+    // getaddrinfo runs on the blocking pool, so the resolver log is process-wide: cases whose
+    // authority merely resembles a reserved name (and therefore resolves "_check", "x_check", ...)
+    // run in a phase of their own, never concurrently with the reserved-authority cases
+    let lookalike = |c: &Case| matches!(c.authority.as_str(), "_CHECK" | "_check:0" | "_check." | "x_check" | "_udp");
+    let (phase2, phase1): (Vec<Case>, Vec<Case>) = all.into_iter().partition(|c| lookalike(c));
+    let mut cs: Vec<Case> = vec![];
+    let mut completed = true;
+    let mut classes = std::collections::BTreeSet::new();
+    for (pi, phase) in [phase1, phase2].into_iter().enumerate() {
+        let r = sweep_dyn(phase.len() as u64, 1, Duration::from_secs(1500), rt::workers(), |i| {
+            let c = &phase[i as usize];
+            let _g = crate::engine::watch::enter("C10:wedged".into(), json!({"case": c}).to_string());
+            run_case_sync(c, &format!("k{pi}x{i}")).map(|k| Cow::Owned(format!("{}:{}:{k}", if c.h2 { "h2" } else { "h1" }, c.outcome)))
+        });
+        rep.add("evaluations", r.evaluations);
+        classes.extend(r.classes.keys().cloned());
+        rep.violations(r.violations);
+        completed &= r.completed;
+        cs.extend(phase);
+    }
+    rep.add("distinct_nontrivial", classes.len() as u64);
+    rep.cov("exhaustive", completed);
     rep.cov("rule", format!("CONNECT x {} authorities x {} connection outcomes x {{h1,h2}} x {{client waits, client closes}} plus GET/POST/OPTIONS/HEAD on reserved authorities and an ordinary host; {} scenarios; distinct = (protocol, outcome, verdict class)", AUTHORITIES.len(), OUTCOMES.len(), cs.len()));
     rep.sample(json!({"case": cs[5], "expected": "see table in c10.rs::plan"}));
     rep.assume("connect(2) outcomes are produced by the interposer (errno) or a black-hole listener + virtual clock (never completes); HTTP/3 not driven");
